@@ -52,6 +52,7 @@ def cases(tier, seed):
                         # how the priors were registered (closure / parameter name) and whether the objective is evaluated on
                         # the model itself or on a deep copy whose hyper-parameters have moved since
                         "reg": rnd.choice(["closure", "name"]), "copy": rnd.choice([False, False, True]),
+                        "freeze": rnd.choice([None, None, "some", "all"]),
                     }
         for t, rank, flags in ((2, 0, [True, True]), (3, 1, [True, True]), (2, 2, [True, True]), (3, 1, [False, True]), (3, 3, [False, True]), (2, 0, [True, False]), (3, 2, [False, True])):
             yield {"kernel": KERNELS[rep % 2], "lik": "mt", "t": t, "rank": rank, "mt_flags": flags, "n": rnd.choice([1, 4]), "d": 1, "batch": [], "priors": rnd.choice(["none", "independent"]),
@@ -396,6 +397,16 @@ def run_case(case, ctx):
         byname = dict(model.named_modules())
         ref_priors = [(byname[p_], attr, logpdf) for p_, (_, attr, logpdf) in zip(paths, ref_priors)]
         X, y = model.train_inputs[0], model.train_targets
+    if case.get("freeze") and ref_priors:
+        # hyper-parameters that carry a prior are frozen (requires_grad False): their prior terms are still part of the objective
+        owners = []
+        for mod_, _, _ in ref_priors:
+            if id(mod_) not in [id(o) for o in owners]:
+                owners.append(mod_)
+        for mod_ in owners[:: 2 if case["freeze"] == "some" else 1]:
+            for p_ in mod_.parameters():
+                p_.requires_grad_(False)
+        ctx.hit("info:frozen_prior_owners")
     model.train()
     lik.train()
     n_enum = len(list(model.named_priors()))
@@ -425,7 +436,7 @@ def run_case(case, ctx):
         return
     mll = early if early is not None else gpytorch.mlls.ExactMarginalLogLikelihood(lik, model)
     ref = dense_objective()
-    gref = torch.autograd.grad(ref.sum(), params, allow_unused=True)
+    gref = torch.autograd.grad(ref.sum(), params, allow_unused=True) if params else []
     if case["path"] == "cg":
         K = 24
         vals, grads = [], []
@@ -451,8 +462,8 @@ def run_case(case, ctx):
     sd = {"fast_computations": [False, False, False]} if case["path"] == "cholesky" else {}
     with util.settings_ctx(sd, tight=False), torch.autograd.set_detect_anomaly(True):
         got = mll(model(X), y)
-        ggot = torch.autograd.grad(got.sum(), params, allow_unused=True)
-    ctx.close("mll_value", got, ref, "direct", cls=cls)
+        ggot = torch.autograd.grad(got.sum(), params, allow_unused=True) if params else []
+    ctx.close("mll_value", got, ref, "direct", cls=cls + (":frozen_" + case["freeze"] if case.get("freeze") else ""))
     nz = False
     # gradients of both sides lose cond(K+S)*eps digits: 1e-7 up to cond 1e7, then proportional (1e-5 at cond 1e9 is the cap:
     # worse-conditioned cells are decided on the value only)
